@@ -7,6 +7,10 @@
 namespace ccl::rslang {
 
 void Normalizer::Normalize(SyntaxTree::Node& root) {
+  if (!localsCollected) {
+    localsCollected = true;
+    CollectLocals(root);
+  }
   switch (root.token.id) {
   default: break;
   case TokenID::FORALL:
@@ -35,6 +39,15 @@ void Normalizer::Normalize(SyntaxTree::Node& root) {
 
   for (Index child = 0; child < root.ChildrenCount(); ++child) {
     Normalize(root(child));
+  }
+}
+
+void Normalizer::CollectLocals(const SyntaxTree::Node& root) {
+  if (root.token.id == TokenID::ID_LOCAL) {
+    userLocals.insert(root.token.data.ToText());
+  }
+  for (Index child = 0; child < root.ChildrenCount(); ++child) {
+    CollectLocals(root(child));
   }
 }
 
@@ -218,8 +231,11 @@ void Normalizer::SubstituteArgs(SyntaxTree::Node& target, const StrRange pos) {
       std::string newName{};
       const auto iter = nameSubstitutes.find(oldName);
       if (iter == std::end(nameSubstitutes)) {
-        ++localVarBase;
-        newName = R"(__var)" + std::to_string(localVarBase);
+        // Note: skip names the surrounding expression already uses - an inlined variable must not capture them
+        do {
+          ++localVarBase;
+          newName = R"(__var)" + std::to_string(localVarBase);
+        } while (userLocals.contains(newName));
         nameSubstitutes.insert(make_pair(oldName, newName));
       } else {
         newName = iter->second;
